@@ -227,6 +227,18 @@ def main():
     prop = args.property
     tier = args.tier if args.tier in ("quick", "thorough") else "quick"
     seed = int(os.environ.get("VERIF_SEED", "20260930") or "20260930")
+    recorded = None
+    if args.replay:
+        # a replay file records seed and tier: every random choice derives from the seed, so the same
+        # inputs are generated again and judged against /repo's current tree
+        try:
+            recorded = json.load(open(args.replay))
+            seed = int(recorded.get("seed", seed))
+            if recorded.get("tier") in ("quick", "thorough"):
+                tier = recorded["tier"]
+        except Exception as e:
+            print("cannot read replay file %s: %s" % (args.replay, e))
+            recorded = None
     cfg = PROPS[prop]
     t0 = time.time()
     os.makedirs(BUILD, exist_ok=True)
@@ -341,6 +353,15 @@ def main():
     for line in known_lines:
         print(line)
 
+    if recorded is not None:
+        now = set((str(v.get("expr")), str(v.get("doc"))) for v in real)
+        was = [(str(v.get("expr")), str(v.get("doc"))) for v in recorded.get("failing_inputs", [])]
+        again = [w for w in was if w in now]
+        print("replay of %s (seed %s, tier %s): %d of %d recorded failing inputs fail again; %d of %d recorded broken obligations are broken again" % (
+            args.replay, seed, tier, len(again), len(was),
+            len([b for b in recorded.get("broken_obligations", []) if b.get("what") in [x.get("what") for x in broken]]), len(recorded.get("broken_obligations", []))))
+        for w in again[:10]:
+            print("  fails again: expr=%r doc=%s" % w)
     exit_code = 0
     replay_path = None
     if real or broken:
